@@ -16,7 +16,7 @@ from ..main import Report
 
 PROP = 'C17'
 PARTS = ('fault',)
-QUICK = (36, 24)
+QUICK = (30, 22)
 THOROUGH = (600, 400)
 
 
@@ -25,11 +25,11 @@ def run(tier: str) -> Report:
     ncases, max_points = QUICK if tier == 'quick' else THOROUGH
     jobs = [(PROP, i, PARTS, max_points) for i in range(ncases)]
     # a second family: imports from another container with small pack targets and cache budgets that force several flushes
-    jobs += [(PROP, i, PARTS, max_points, 'read') for i in range(8 if tier == 'quick' else ncases // 4)]
-    jobs += [(PROP, i, PARTS, max_points, 'noholes') for i in range(8 if tier == 'quick' else ncases // 4)]
-    jobs += [(PROP, i, PARTS, max_points, 'delete') for i in range(6 if tier == 'quick' else ncases // 6)]
-    jobs += [(PROP, i, PARTS, max_points, 'packall') for i in range(6 if tier == 'quick' else ncases // 4)]
-    jobs += [(PROP, i, PARTS, max_points, 'import') for i in range(10 if tier == 'quick' else ncases // 3)]
+    jobs += [(PROP, i, PARTS, max_points, 'read') for i in range(6 if tier == 'quick' else ncases // 4)]
+    jobs += [(PROP, i, PARTS, max_points, 'noholes') for i in range(6 if tier == 'quick' else ncases // 4)]
+    jobs += [(PROP, i, PARTS, max_points, 'delete') for i in range(5 if tier == 'quick' else ncases // 6)]
+    jobs += [(PROP, i, PARTS, max_points, 'packall') for i in range(5 if tier == 'quick' else ncases // 4)]
+    jobs += [(PROP, i, PARTS, max_points, 'import') for i in range(8 if tier == 'quick' else ncases // 3)]
     ctx = mp.get_context('fork')
     with ctx.Pool(processes=min(14, os.cpu_count() or 4)) as pool:
         results = pool.map(crashlab.run_lab, jobs, chunksize=1)
